@@ -39,6 +39,7 @@ pub const SEG_KINDS: &[Seg] = &[
     Seg::H,
     Seg::T,
     Seg::S3,
+    Seg::K,
     Seg::F,
     Seg::P(1),
     Seg::P(2),
@@ -114,6 +115,27 @@ pub fn medium_inputs() -> Vec<Input> {
 
 pub fn shape_named(name: &str, spec: &[(Seg, usize)]) -> Input {
     Input { name: name.to_string(), data: build_shape(spec, seed()) }
+}
+
+/// Runs straddling a 32 KiB dictionary boundary: R(32768k - a) + run(a + b) + R(300). The run
+/// starts `a` bytes before the boundary and ends `b` bytes past it (dictionary mirror area).
+pub fn straddle_inputs(dense: bool) -> Vec<Input> {
+    let mut v = vec![];
+    let aa: &[usize] = if dense { &[1, 2, 3, 100, 130, 257, 258, 300] } else { &[1, 130, 258] };
+    let bb: &[usize] = if dense { &[1, 2, 7, 8, 9, 10, 100, 256, 257, 258, 259, 300] } else { &[1, 9, 100, 257, 300] };
+    for k in [1usize, 2] {
+        for &a in aa {
+            for &b in bb {
+                for (fill, seg) in [("Z", Seg::Z), ("F", Seg::F)] {
+                    if fill == "F" && !(dense || (a == 130 && b == 100)) {
+                        continue;
+                    }
+                    v.push(shape_named(&format!("straddle:k{}a{}b{}{}", k, a, b, fill), &[(Seg::R, 32768 * k - a), (seg, a + b), (Seg::R, 300)]));
+                }
+            }
+        }
+    }
+    v
 }
 
 /// Long inputs (66–200 KB): flush_block runs mid-call, blocks partially drained.
